@@ -32,6 +32,19 @@ func histories(tier string) []History {
 		{Name: "merge-overtaken-by-import", Events: []string{"api:import:P1", "step:import", "step:import", "api:import:P2", "step:import", "step:import", "api:import:P3",
 			"step:import", "step:import", "step:merge", "step:merge", "drain", "api:addtag:service/s=sport:53", "drain"}},
 	}
+	h = append(h,
+		// an out-of-order capture that resets a stored stream, then a capture that only continues it: the index
+		// file that sorts last holds nothing but an old, low stream id; marks on the highest ids
+		History{Name: "reset-then-extension-only", Events: []string{"api:addtag:service/s=sport:53", "api:import:P1+P2", "drain", "api:import:P0", "drain", "api:addtag:mark/k=id:2", "api:import:P3", "drain",
+			"api:markadd:mark/k=3", "api:import:P6", "drain", "api:markdel:mark/k=2", "drain"}},
+		// settings, webhooks and endpoints that are added AND removed again, a tag that is renamed and deleted:
+		// what was acknowledged as gone must stay gone
+		History{Name: "settings-added-and-removed", Events: []string{"api:config:on", "api:webhook:http://127.0.0.1:9/a", "api:webhook:http://127.0.0.1:9/b", "api:endpoint:127.0.0.1:9", "api:endpoint:127.0.0.1:10",
+			"api:addtag:tag/p=cport:1", "api:import:P1", "drain", "api:webhook.del:http://127.0.0.1:9/a", "api:endpoint.del:127.0.0.1:9", "api:config:off", "api:color:tag/p=#010203", "api:rename:tag/p=tag/q", "drain", "api:deltag:tag/q", "api:addtag:tag/p=sport:80", "drain"}},
+		// a converter attached to two tags, detached from one, its output invalidated by an extension
+		History{Name: "converter-on-two-tags", Converter: true, Events: []string{"api:import:P1+P2", "drain", "api:addtag:tag/p=cport:1", "api:addtag:service/w=sport:80", "api:converters:tag/p=conv", "api:converters:service/w=conv", "drain",
+			"api:converters:tag/p=", "api:import:P3", "drain", "api:converters:service/w=conv,conv2", "drain"}},
+	)
 	if tier == "thorough" {
 		h = append(h,
 			History{Name: "queued-imports-and-edits", Events: []string{"api:import:P1", "api:import:P2", "api:import:P3", "api:addtag:tag/d=data:foo", "step:import", "api:updtag:tag/d=sdata:bar", "drain", "api:import:P4", "drain"}},
